@@ -349,7 +349,8 @@ def refDispatch : List (Cond × Arm) :=
   [ (.isNone, .stmts [ .bind "SPL" (mSelf "adjacency"),
                        .setMask "SPL" (.eq (mSelf "SPL") (.lit 0)) .inf ]),
     (.eqStr "log", .stmts [ .bind "SPL" (.add (.negLog (mSelf "adjacency")) (.lit 0)) ]),
-    (.eqStr "inv", .stmts [ .bind "SPL" (.recip (mSelf "adjacency")) ]),
+    (.eqStr "inv", .stmts [ .bind "SPL" (.recip (mSelf "adjacency")),
+                            .setMask "SPL" (.eq (mSelf "adjacency") (.lit 0)) .inf ]),
     (.otherwise, .raise "ValueError") ]
 
 def refInit : List Stmt :=
